@@ -104,6 +104,10 @@ func (p *AV1Payloader) Payload(mtu uint16, payload []byte) (payloads [][]byte) {
 				newSequence = false
 				currentPacketOBUHeader = nil
 			}
+		} else if needNewPacket {
+			// nothing is pending (the previous OBU was dropped): the decision must not be lost
+			startWithNewPacket = true
+			currentPacketOBUHeader = nil
 		}
 
 		if obuHeader.ExtensionHeader != nil {
